@@ -14,7 +14,9 @@
                       cbor_ctrl_value, cbor_get_bool, cbor_refcount, cbor_tag_value,
                       cbor_bytestring_length / is_definite / is_indefinite / chunk_count,
                       cbor_string_length / codepoint_count / is_definite / is_indefinite / chunk_count,
-                      cbor_array_size / allocated / is_definite / is_indefinite, cbor_map_ (the same four)
+                      cbor_array_size / allocated / is_definite / is_indefinite, cbor_map_ (the same four),
+                      the pointer getters cbor_*_handle / cbor_*_chunks_handle
+     allocators.c     cbor_set_allocs (while no block is alive)
 
    The value of an item made by cbor_new_intN / cbor_new_floatN lives in bytes that nobody has written.
    The [node] type has no "no value yet" form, and storing 0 would be a totalisation that hides a read
@@ -113,6 +115,20 @@ Definition values_of (n : node) : list N :=
   | NFloat F64 bits => [canon64 bits; 1]
   | NFloat _ bits => [canon32 bits; 1]
   | NCtrl v => v :: (if (v =? 20) || (v =? 21) then [b2n (v =? 21)] else [])
+  | _ => []
+  end.
+
+(* the pointer getters cbor_bytestring_handle / cbor_string_handle, cbor_bytestring_chunks_handle /
+   cbor_string_chunks_handle, cbor_array_handle, cbor_map_handle: the block the pointer designates (its
+   address; 0 = NULL: a definite string without buffer, a container that has no storage yet), then what the
+   client finds there: the bytes, the chunk items, the elements, the key / value items, in storage order *)
+Definition oaddr (o : option addr) : N := match o with Some a => a | None => 0 end.
+Definition ptrs_of (n : node) : list N :=
+  match n with
+  | NStr _ data bytes => oaddr data :: bytes
+  | NChunked _ _ arr _ chunks => oaddr arr :: chunks
+  | NArr _ data _ elems => oaddr data :: elems
+  | NMap _ data _ pairs => oaddr data :: flat_map (fun kv => [fst kv; oaddr (snd kv)]) pairs
   | _ => []
   end.
 
@@ -377,6 +393,21 @@ Definition vals3 (s : cstate3) (h : nat) : M (cstate3 * out3) :=
       if memN a (unset s) then fail FUninit else
       c <- rd_item a ;; ret (s, OutVals (preds_of (fst c) (snd c) ++ values_of (snd c)))
   end.
+
+(* two further calls kept OUTSIDE [op3] (so that every theorem over [op3] / [step3], here and in HStepInv / HFrame /
+   HAtomic / HTrace, stays as it is): the pointer getters, and cbor_set_allocs, whose legality is a property of the
+   whole heap (no frame property can hold for it) *)
+Definition ptrs3 (s : cstate3) (h : nat) : M (cstate3 * out3) :=
+  match hget (base s) h with
+  | None => ret (s, Out OutSkip)
+  | Some a => c <- rd_item a ;; ret (s, OutVals (ptrs_of (snd c)))
+  end.
+
+(* cbor_set_allocs: allowed while nothing obtained from the previous allocator is alive (a block is
+   released through the functions installed at that moment); the model has one allocator, so the call
+   changes nothing -- what is modelled is the rule *)
+Definition set_allocs (s : cstate3) : M (cstate3 * out3) :=
+  fun w => if live_count w =? 0 then Ret (s, Out OutUnit) w else Fault (FAssert 78).
 
 (* ---------- one call, histories ---------- *)
 
